@@ -1,4 +1,303 @@
-import PieModel.Build.Pie
+/-
+Property C07: "If executing a task leads, through any chain of requires, to requiring a task
+that is still executing, the build aborts with a cyclic-dependency error before any task is
+executed a second time; it never recurses without bound and never returns a value for a task
+on the cycle."
+
+The Rust call stack of executing tasks is not part of the model state (only `s.cur` is); it is
+made explicit in the statements:
+
+* `StackOK s stk` (`PieModel/Build/Stack/Defs.lean`) describes a state `s` in which the tasks
+  `stk` (graph nodes, outermost first) are executing: the innermost one is `s.cur`; they are
+  pairwise distinct task nodes without output, none marked consistent; **every frame reaches
+  every later frame in the dependency graph** (through the `reserved` edge of a pending require,
+  or through recorded `require` edges of tasks being validated followed by such an edge);
+  tasks with output have no `reserved` dependency; consistent tasks have an output.
+* `StackOK` alone is not inductive.  (a) The callee must be *linked* to the stack: `tdMake t`
+  for a task `t` whose node is on the stack finds it not consistent and without output, resets it
+  and executes it a second time; in a real build this never happens because `tdMake` is only
+  called for a node that is reachable from every frame (the require edge was reserved just
+  before, or the node is a recorded dependency of the task being validated), and the graph is
+  acyclic.  (b) While a dependency `m` of some task is *validated* on behalf of the innermost
+  executing task, `m` must not be reset either (its snapshot of dependencies is being walked).
+  The inductive invariant `Frames s ch` therefore lists the whole logical call stack `ch`,
+  executing **and** validating frames, every frame reaching every later one;
+  `StackOK s (s.store.execStack ch)` is its projection (`C07_frames_stackOK`), and the five
+  statements carry the link of the callee as a hypothesis.
+* `C07_stack_invariant`: the joint induction on fuel over the five mutually recursive top-down
+  functions (`TdStack`, `PieModel/Build/Stack/TopDown.lean`).
+
+Proofs: `PieModel/Build/Stack/*.lean`.
+-/
+import PieModel.Build.Stack.Session
+import PieModel.Props.C19
+
 namespace PieModel
-theorem C07_placeholder : True := trivial
+
+variable (sem : Sem) (body : Nat → Prog)
+
+/-! ### the invariant -/
+
+/-- The executing frames of the logical call stack form a stack in the sense of `StackOK`. -/
+theorem C07_frames_stackOK {s : Sess} {ch : List Nat} (h : Frames s ch) :
+    StackOK s (s.store.execStack ch) := h.stackOK
+
+/-- Between builds (empty stack) the invariant is: well-formed session, `cur = none`, tasks with
+output have no `reserved` dependency, consistent tasks have an output. -/
+theorem C07_frames_nil_iff {s : Sess} :
+    Frames s [] ↔ (SessWF s ∧ Done s) ∧ s.cur = none := by
+  rw [Frames.nil_iff]
+  exact ⟨fun ⟨h, hc⟩ => ⟨⟨h.wf, h.done⟩, hc⟩, fun ⟨h, hc⟩ => ⟨⟨h.1, h.2⟩, hc⟩⟩
+
+/-- **The executing-stack invariant is maintained by the top-down build** (joint induction on
+fuel): see the fields of `TdStack` for the five statements.  `T := True` also carries the trace
+invariant `Trc` (for sessions that start with an empty trace), `T := False` drops it. -/
+theorem C07_stack_invariant (T : Prop) (f : Nat) : TdStack sem body T f := tdStack sem body f
+
+/-! #### the invariant in terms of the stack of executing tasks
+
+"For the stack `stk` of executing tasks of a logical call stack `ch` with `Frames s ch`: if the
+call returns, `StackOK s' stk` holds again for the *same* `stk`." -/
+
+theorem C07_stackOK_of_keeps {s s' : Sess} {ch : List Nat} (h' : Frames s' ch)
+    (he : ∀ n ∈ ch, s'.store.taskOutput n = s.store.taskOutput n) :
+    StackOK s' (s.store.execStack ch) := by
+  rw [← Store.execStack_congr he]; exact h'.stackOK
+
+theorem C07_stackOK_preserved_make (f : Nat) (s : Sess) (ch : List Nat) (t : Nat)
+    (h : Frames s ch)
+    (hl : ch ≠ [] → ∃ node, s.store.taskOf node = some t ∧ ∀ x ∈ ch, s.store.g.Reach x node)
+    (s' : Sess) (v : Int) (hr : tdMake sem body f s t = (s', .ok v)) :
+    StackOK s' (s.store.execStack ch) := by
+  obtain ⟨f', _, k⟩ := ((tdStack sem body (T := False) f).make s ch t h
+    (fun hf => nomatch hf) hl).ok hr
+  exact C07_stackOK_of_keeps f' fun n hn => (k n hn).2
+
+theorem C07_stackOK_preserved_check (f : Nat) (s : Sess) (ch : List Nat) (node t : Nat)
+    (h : Frames s ch) (ht : s.store.taskOf node = some t) (hnc : node ∉ s.consistent)
+    (hr : ∀ x ∈ ch, s.store.g.Reach x node)
+    (s' : Sess) (o : Option Int) (heq : tdCheck sem body f s node = (s', .ok o)) :
+    StackOK s' (s.store.execStack ch) := by
+  obtain ⟨f', _, k, _⟩ := ((tdStack sem body (T := False) f).check s ch node t h
+    (fun hf => nomatch hf) ht hnc hr).ok heq
+  exact C07_stackOK_of_keeps f' fun n hn => (k n hn).2
+
+theorem C07_stackOK_preserved_checkDeps (f : Nat) (s : Sess) (ch : List Nat) (m : Nat)
+    (ds : List Dep) (h : Frames s (ch ++ [m])) (ho : s.store.taskOutput m ≠ none)
+    (hpre : ∃ pre, s.store.depsFrom m = pre ++ ds)
+    (s' : Sess) (b : Bool) (heq : tdCheckDeps sem body f s ds = (s', .ok b)) :
+    StackOK s' (s.store.execStack (ch ++ [m])) := by
+  obtain ⟨f', _, k⟩ := ((tdStack sem body (T := False) f).checkDeps s ch m ds h
+    (fun hf => nomatch hf) ho hpre).ok heq
+  exact C07_stackOK_of_keeps f' fun n hn => (k n hn).2
+
+theorem C07_stackOK_preserved_run (f : Nat) (s : Sess) (ch₀ : List Nat) (a : Nat) (p : Prog)
+    (h : Frames s (ch₀ ++ [a])) (hc : s.cur = some a) (hnr : Dep.reserved ∉ s.store.depsFrom a)
+    (s' : Sess) (v : Int) (heq : tdRun sem body f s p = (s', .ok v)) :
+    StackOK s' (s.store.execStack (ch₀ ++ [a])) := by
+  obtain ⟨f', _, k, _⟩ := ((tdStack sem body (T := False) f).run s ch₀ a p h
+    (fun hf => nomatch hf) hc hnr).ok heq
+  refine C07_stackOK_of_keeps f' fun n hn => ?_
+  rcases List.mem_append.mp hn with hn | hn
+  · exact (k n hn).2
+  · simp at hn; subst hn
+    rw [(h.cur_mem hc).2, (f'.cur_mem ((cur_tdRun sem body heq).trans hc)).2]
+
+theorem C07_stackOK_preserved_require (f : Nat) (s : Sess) (ch₀ : List Nat) (top : Option Nat)
+    (t c : Nat) (h : Frames s (ch₀ ++ top.toList)) (hc : s.cur = top)
+    (hch : top = none → ch₀ = []) (hnr : ∀ a, top = some a → Dep.reserved ∉ s.store.depsFrom a)
+    (s' : Sess) (v : Int) (heq : tdRequire sem body f s t c = (s', .ok v)) :
+    StackOK s' (s.store.execStack (ch₀ ++ top.toList)) := by
+  obtain ⟨f', _, k, _⟩ := ((tdStack sem body (T := False) f).require s ch₀ top t c h
+    (fun hf => nomatch hf) hc hch hnr).ok heq
+  refine C07_stackOK_of_keeps f' fun n hn => ?_
+  rcases List.mem_append.mp hn with hn | hn
+  · exact (k n hn).2
+  · cases top with
+    | none => cases hn
+    | some a =>
+      simp at hn; subst hn
+      rw [(h.cur_mem hc).2, (f'.cur_mem ((cur_tdRequire sem body heq).trans hc)).2]
+
+/-- The frames are pairwise distinct task nodes, so the stack is bounded by the number of
+registered tasks: the build never recurses without bound on executing tasks. -/
+theorem C07_stack_bounded {s : Sess} {stk : List Nat} (hwf : SessWF s) (hs : StackOK s stk) :
+    stk.length ≤ s.store.taskNode.length := by
+  have : stk ⊆ s.store.taskNode.map (·.2) := by
+    intro n hn
+    obtain ⟨t, ht⟩ := hs.task n hn
+    obtain ⟨o, ho⟩ := (Store.taskOf_eq_some_iff _ _ _).mp ht
+    exact List.mem_map.mpr ⟨(t, n), (hwf.store.mem_taskNode_iff t n).mpr ⟨o, ho⟩, rfl⟩
+  simpa using hs.nodup.length_le_of_subset this
+
+/-! ### requiring a task that is still executing -/
+
+/-- **C07.** Requiring a task whose node is on the stack of executing tasks aborts with the
+cyclic-dependency error at once: the only effect is the `require_start` event — no dependency is
+added, nothing is executed, no value is returned. -/
+theorem C07_require_on_stack_aborts (f : Nat) (s : Sess) (stk : List Nat) (t c n : Nat)
+    (hwf : SessWF s) (hs : StackOK s stk) (ht : aget s.store.taskNode t = some n)
+    (hn : n ∈ stk) :
+    tdRequire sem body (f + 1) s t c = (s.emit (.requireStart t c), .abort .cyclic) := by
+  have hw := hwf.store
+  obtain ⟨a, ha⟩ : ∃ a, stk.getLast? = some a := by
+    cases h : stk.getLast? with
+    | none => rw [List.getLast?_eq_none_iff] at h; subst h; cases hn
+    | some a => exact ⟨a, rfl⟩
+  obtain ⟨ys, hy⟩ := List.getLast?_eq_some_iff.mp ha
+  have hcur : s.cur = some a := hs.cur.trans ha
+  have hcyc : (s.store.addDependency a n .reserved).2 = .cycle := by
+    rw [Store.addDependency_snd_cycle_iff hw]
+    obtain ⟨ta, hta⟩ := hwf.cur a hcur
+    refine ⟨Store.live_of_taskOf hta, Store.live_of_taskOf ((hw.task_iff t n).mp ht), ?_⟩
+    subst hy
+    rcases List.mem_append.mp hn with h1 | h1
+    · exact .inr ((List.pairwise_append.mp hs.path).2.2 n h1 a (by simp))
+    · simp at h1; exact .inl h1.symm
+  have hadd : s.store.addDependency a n .reserved = (s.store, .cycle) :=
+    Prod.ext (Store.addDependency_fst_of_ne_ok _ _ _ (by rw [hcyc]; simp)) hcyc
+  have hres : reserveRequire (s.emit (.requireStart t c)) n =
+      (s.emit (.requireStart t c), .abort .cyclic) := by
+    unfold reserveRequire
+    simp only [Sess.cur_emit, hcur, Sess.store_emit, hadd]
+  have hst : ({ s.emit (.requireStart t c) with store := s.store } : Sess) =
+      s.emit (.requireStart t c) := rfl
+  unfold tdRequire
+  simp only [Sess.store_emit, Store.getOrCreateTaskNode_of_some ht, hst, hres]
+
+/-- The rejected `reserveRequire` leaves the session state — in particular the dependency
+graph — exactly as it was (whatever the reason of the rejection). -/
+theorem C07_cycle_abort_clean (s s' : Sess) (dst : Nat) (k : Abort)
+    (h : reserveRequire s dst = (s', .abort k)) : s' = s := by
+  unfold reserveRequire at h
+  split at h
+  · cases h
+  · split at h
+    · cases h
+    · cases h; rfl
+    · cases h; rfl
+
+/-- ... and at the level of the store: a rejected `add_dependency` returns the store unchanged. -/
+theorem C07_cycle_abort_clean_store (st : Store) (src dst : Nat) (d : Dep)
+    (h : (st.addDependency src dst d).2 ≠ .ok) : (st.addDependency src dst d).1 = st :=
+  Store.addDependency_fst_of_ne_ok src dst d h
+
+/-- On a well-formed stack the only possible rejection is the cycle error. -/
+theorem C07_reserve_abort_is_cyclic {s s' : Sess} {ch : List Nat} {dst t : Nat} {k : Abort}
+    (h : Frames s ch) (hd : s.store.taskOf dst = some t)
+    (heq : reserveRequire s dst = (s', .abort k)) : s' = s ∧ k = .cyclic :=
+  reserveRequire_abort h hd heq
+
+/-- **C07.** A require never returns a value for a task on the stack. -/
+theorem C07_no_value_on_cycle (f : Nat) (s s' : Sess) (stk : List Nat) (t c n : Nat) (v : Int)
+    (hwf : SessWF s) (hs : StackOK s stk) (ht : aget s.store.taskNode t = some n)
+    (hr : tdRequire sem body (f + 1) s t c = (s', .ok v)) : n ∉ stk := by
+  intro hn
+  rw [C07_require_on_stack_aborts sem body f s stk t c n hwf hs ht hn] at hr
+  cases hr
+
+/-! ### no re-entry
+
+`execute_start t` is never emitted for a task `t` that is executing: within any call of a
+top-down function made in a state satisfying the invariant (with the trace invariant of a
+session that started with an empty trace), the number of `execute_start t` events of every task
+on the stack of executing tasks does not change — whether the call returns or aborts.  In
+particular every nested execution adds a *new* task to the duplicate-free stack. -/
+
+theorem C07_no_reentry_require (f : Nat) (s : Sess) (ch₀ : List Nat) (top : Option Nat) (t c : Nat)
+    (h : Frames s (ch₀ ++ top.toList)) (htr : Trc s (ch₀ ++ top.toList)) (hc : s.cur = top)
+    (hch : top = none → ch₀ = []) (hnr : ∀ a, top = some a → Dep.reserved ∉ s.store.depsFrom a)
+    {n u : Nat} (hn : n ∈ s.store.execStack (ch₀ ++ top.toList)) (hu : s.store.taskOf n = some u) :
+    countExec u (tdRequire sem body f s t c).1.trace = countExec u s.trace :=
+  no_reentry_of_post ((tdStack sem body f).require s ch₀ top t c h (fun _ => htr) hc hch hnr)
+    (fun _ _ hp => (hp.2.1 trivial).once) (ext_tdRequire sem body f s t c) htr hn hu
+
+theorem C07_no_reentry_make (f : Nat) (s : Sess) (ch : List Nat) (t : Nat)
+    (h : Frames s ch) (htr : Trc s ch)
+    (hl : ch ≠ [] → ∃ node, s.store.taskOf node = some t ∧ ∀ x ∈ ch, s.store.g.Reach x node)
+    {n u : Nat} (hn : n ∈ s.store.execStack ch) (hu : s.store.taskOf n = some u) :
+    countExec u (tdMake sem body f s t).1.trace = countExec u s.trace :=
+  no_reentry_of_post ((tdStack sem body f).make s ch t h (fun _ => htr) hl)
+    (fun _ _ hp => (hp.2.1 trivial).once) (ext_tdMake sem body f s t) htr hn hu
+
+theorem C07_no_reentry_check (f : Nat) (s : Sess) (ch : List Nat) (node t : Nat)
+    (h : Frames s ch) (htr : Trc s ch) (ht : s.store.taskOf node = some t)
+    (hnc : node ∉ s.consistent) (hr : ∀ x ∈ ch, s.store.g.Reach x node)
+    {n u : Nat} (hn : n ∈ s.store.execStack ch) (hu : s.store.taskOf n = some u) :
+    countExec u (tdCheck sem body f s node).1.trace = countExec u s.trace :=
+  no_reentry_of_post ((tdStack sem body f).check s ch node t h (fun _ => htr) ht hnc hr)
+    (fun _ _ hp => (hp.2.1 trivial).once) (ext_tdCheck sem body f s node) htr hn hu
+
+theorem C07_no_reentry_checkDeps (f : Nat) (s : Sess) (ch : List Nat) (m : Nat) (ds : List Dep)
+    (h : Frames s (ch ++ [m])) (htr : Trc s (ch ++ [m])) (ho : s.store.taskOutput m ≠ none)
+    (hpre : ∃ pre, s.store.depsFrom m = pre ++ ds)
+    {n u : Nat} (hn : n ∈ s.store.execStack (ch ++ [m])) (hu : s.store.taskOf n = some u) :
+    countExec u (tdCheckDeps sem body f s ds).1.trace = countExec u s.trace :=
+  no_reentry_of_post ((tdStack sem body f).checkDeps s ch m ds h (fun _ => htr) ho hpre)
+    (fun _ _ hp => (hp.2.1 trivial).once) (ext_tdCheckDeps sem body f s ds) htr hn hu
+
+theorem C07_no_reentry_run (f : Nat) (s : Sess) (ch₀ : List Nat) (a : Nat) (p : Prog)
+    (h : Frames s (ch₀ ++ [a])) (htr : Trc s (ch₀ ++ [a])) (hc : s.cur = some a)
+    (hnr : Dep.reserved ∉ s.store.depsFrom a)
+    {n u : Nat} (hn : n ∈ s.store.execStack (ch₀ ++ [a])) (hu : s.store.taskOf n = some u) :
+    countExec u (tdRun sem body f s p).1.trace = countExec u s.trace :=
+  no_reentry_of_post ((tdStack sem body f).run s ch₀ a p h (fun _ => htr) hc hnr)
+    (fun _ _ hp => (hp.2.1 trivial).once) (ext_tdRun sem body f s p) htr hn hu
+
+/-! ### non-vacuity
+
+The two-task cyclic program of `Props/C19.lean`: task 0 requires task 1; task 1 reads resource 0
+and, as it contains `1`, requires task 0, which is still executing. -/
+
+/-- The state at the abort point of the session. -/
+def c07S : Sess := (requireAll stdSem c19Body 50 c19P1.newSession [0]).1
+
+/-- The session aborts with the cyclic-dependency error ... -/
+example : c19Verdict c19P1 [0] = (some .cyclic, none) := by with_unfolding_all decide
+
+/-- ... each of the two tasks was entered exactly once ... -/
+example : countExec 0 c07S.trace = 1 ∧ countExec 1 c07S.trace = 1 := by
+  with_unfolding_all decide
+
+theorem C07_example_sessOK : SessOK c07S :=
+  requireAll_sessOK stdSem c19Body 50
+    (sessOK_newSession c19P1 Store.WF.empty Store.NoReservedDone.empty) [0]
+
+/-- ... and at the abort point both tasks are on the stack (node 0 = task 0 below node 1 =
+task 1): the hypotheses of `C07_require_on_stack_aborts` are satisfiable with a non-empty
+stack ... -/
+theorem C07_example_stackOK : StackOK c07S [0, 1] := by
+  refine ⟨by with_unfolding_all decide, ?_, by with_unfolding_all decide, by decide,
+    by with_unfolding_all decide, ?_, C07_example_sessOK.done.nrd, C07_example_sessOK.done.cons⟩
+  · intro n hn
+    simp only [List.mem_cons, List.not_mem_nil, or_false] at hn
+    rcases hn with rfl | rfl
+    · exact ⟨0, by with_unfolding_all decide⟩
+    · exact ⟨1, by with_unfolding_all decide⟩
+  · refine List.pairwise_pair.mpr (.edge ?_)
+    show 1 ∈ c07S.store.g.childrenOf 0
+    with_unfolding_all decide
+
+/-- ... so requiring task 0 (or task 1) again in that state aborts at once, for every fuel,
+output checker and whatever the task bodies are. -/
+example (body : Nat → Prog) (f c : Nat) :
+    tdRequire stdSem body (f + 1) c07S 0 c = (c07S.emit (.requireStart 0 c), .abort .cyclic) :=
+  C07_require_on_stack_aborts stdSem body f c07S [0, 1] 0 c 0 C07_example_sessOK.wf C07_example_stackOK
+    (by with_unfolding_all decide) (by decide)
+
+example (body : Nat → Prog) (f c : Nat) :
+    tdRequire stdSem body (f + 1) c07S 1 c = (c07S.emit (.requireStart 1 c), .abort .cyclic) :=
+  C07_require_on_stack_aborts stdSem body f c07S [0, 1] 1 c 1 C07_example_sessOK.wf C07_example_stackOK
+    (by with_unfolding_all decide) (by decide)
+
+/-- The link hypothesis of `tdMake` (the callee is reachable from every frame) cannot be dropped:
+calling `tdMake` out of the blue for task 0, which is on the stack, executes it a second time
+(`StackOK` alone is not inductive). -/
+example : countExec 0 c07S.trace = 1 ∧
+    countExec 0 (tdMake stdSem c19Body 50 c07S 0).1.trace = 2 := by with_unfolding_all decide
+
+/-- The stack invariant holds at the start of every session on a fresh `Pie`. -/
+example : Frames ({} : PieSt).newSession [] :=
+  Frames.nil_iff.mpr ⟨sessOK_newSession {} Store.WF.empty Store.NoReservedDone.empty, rfl⟩
+
 end PieModel
